@@ -40,8 +40,9 @@ class CommonJSONDecoder(json.JSONDecoder):
                 pass
         if 'type{time}' in obj:
             try:
+                fmt = TIME_P_FORMAT + ('.%f' if '.' in obj['type{time}'] else '')
                 return datetime.datetime \
-                    .strptime(obj['type{time}'], TIME_P_FORMAT) \
+                    .strptime(obj['type{time}'], fmt) \
                     .time()
             except ValueError:
                 pass
@@ -49,7 +50,7 @@ class CommonJSONDecoder(json.JSONDecoder):
             try:
                 (isoformat, tzofs, tzname) = obj['type{datetime}']
                 parsed = datetime.datetime \
-                    .strptime(isoformat, DATETIME_P_FORMAT)
+                    .strptime(isoformat, DATETIME_P_FORMAT + ('.%f' if '.' in isoformat else ''))
                 if tzname is not None:
                     return datetime.datetime \
                         .combine(parsed.date(), parsed.time(),
@@ -94,10 +95,10 @@ class CommonJSONEncoder(json.JSONEncoder):
         if isinstance(obj, decimal.Decimal):
             return {'type{decimal}': str(obj)}
         elif isinstance(obj, datetime.time):
-            return {'type{time}': obj.strftime(TIME_F_FORMAT)}
+            return {'type{time}': obj.strftime(TIME_F_FORMAT + ('.%f' if obj.microsecond else ''))}
         elif isinstance(obj, datetime.datetime):
             return {'type{datetime}':
-                    (obj.strftime(DATETIME_F_FORMAT),
+                    (obj.strftime(DATETIME_F_FORMAT + ('.%f' if obj.microsecond else '')),
                      obj.utcoffset().total_seconds() if obj.utcoffset() is not None else None,
                      obj.tzname())}
         elif isinstance(obj, datetime.date):
